@@ -165,6 +165,9 @@ func (r *Decoder) parseRoot() error {
 	ts, err := inspectjson.Parse(r.r, append(r.parserOptions, topt)...)
 	if err != nil {
 		return fmt.Errorf("parse: %w", err)
+	} else if ts == nil {
+		// the parser reports an input which ends inside a token as (nil, nil)
+		return fmt.Errorf("parse: %w", io.ErrUnexpectedEOF)
 	}
 
 	opts := jsonldtype.ProcessorOptions{
